@@ -29,7 +29,7 @@ for c in m['checks']:
     if ids and pid not in ids:
         continue
     cmd = c['quick_cmd'] if tier == 'quick' else c.get('thorough_cmd', c['quick_cmd'])
-    ev = c['evidence_file']
+    ev = os.path.join(HERE, 'evidence', pid + '.json')   # the tree this script lives in (a vp-run snapshot has its own)
     if os.path.exists(ev):
         os.unlink(ev)
     env = dict(os.environ)
